@@ -27,6 +27,7 @@ def main():
     src = "/tmp/seedout/" + pid
     if "--src" in sys.argv:
         src = sys.argv[sys.argv.index("--src") + 1]
+    suffix = sys.argv[sys.argv.index("--suffix") + 1] if "--suffix" in sys.argv else ""
     patch = os.path.join(src, "patch.diff")
     demos = [f for f in os.listdir(src) if f.startswith("demo") and f.endswith(".go")]
     if not os.path.exists(patch) or not demos:
@@ -86,7 +87,7 @@ def main():
         res["confirmed"] = ok
         print("SEED %s: demo+patch rc=%s, suite+patch rc=%s, demo-patch rc=%s => %s" % (pid, rc1, rc2, rc3, "CONFIRMED" if ok else "NOT CONFIRMED"))
         if ok:
-            d = os.path.join(ROOT, "seeded", pid)
+            d = os.path.join(ROOT, "seeded", pid + suffix)
             os.makedirs(d, exist_ok=True)
             shutil.copy(patch, os.path.join(d, "patch.diff"))
             shutil.copy(demo, os.path.join(d, os.path.basename(demo)))
@@ -105,7 +106,7 @@ def main():
                                                      demo_without_patch="pass", tool="tools/confirm_seed.py in a scratch worktree")
             json.dump(meta, open(os.path.join(d, "meta.json"), "w"), indent=1)
         else:
-            json.dump(res, open("/tmp/seedout/%s/confirm_failed.json" % pid, "w"), indent=1)
+            json.dump(res, open(os.path.join(src, "confirm_failed.json"), "w"), indent=1)
         return 0 if ok else 1
     finally:
         subprocess.call(["git", "-C", "/repo", "worktree", "remove", "--force", wt])
